@@ -11,7 +11,7 @@ import re
 import mirlib
 import mirsym as ms
 import z3
-from vcommon import Outcome, build_cli, run_cli, new_replay_dir, tier, log
+from vcommon import Outcome, build_cli, run_cli, new_replay_dir, tier, log, REPO
 
 WRITE = "DefaultFileSystem.FileSystem::write_file"
 PURE = re.compile(r"^(Level\.PartialOrd::le|log::max_level|max_level|Arguments::|Argument::|__private_api::|log::|rt::Argument|fmt::)")
@@ -257,6 +257,9 @@ def check():
     # ------------------------------------------------------------------ 6. "written" means: the target holds exactly the document
     file_content_lemma(o, L, ML, bad, on_sat)
 
+    # ------------------------------------------------------------------ 7. which file is the target: both configuration routes
+    config_lemmas(o, L, ML, bad, on_sat)
+
     o.samples = samples + [{"query": q["name"], "verdict": q["verdict"]} for q in o.queries[:6]]
     # ------------------------------------------------------------------ replay on the real CLI
     if True:   # the real-binary oracle is cheap: always run it (replay of a failing lemma, or translator validation)
@@ -349,6 +352,90 @@ CASES = {
     "two-modules-ok": ('use "m.oal" as m;\nres / on get -> <m.t>;\n', {"m.oal": "let t = { 'k str };\n"}, 0),
 }
 SENTINEL = "SENTINEL: pre-existing target\n"
+
+
+def config_lemmas(o, L, MC, bad, on_sat):
+    """Which file is `the target`: Config::{main,target,base} answer root.join(p) where p is what the user configured for
+    that very setting - on the command line or in the config file - and `not specified` / no base only when neither
+    route names one; and the command line names a value only when the user wrote it (no default, no environment)."""
+    E = mirlib.enums()
+    S = L.smt
+
+    def structural(name, ok):
+        o.query(name, "mirsym/structural", "unsat" if ok else "violated", 0)
+        if not ok:
+            bad.append(name)
+    src = open(os.path.join(REPO, "oal-client/src/config.rs")).read()
+
+    def fields(struct):
+        m = re.search(r"struct %s\s*\{(.*?)\n\}" % struct, src, re.S)
+        return re.findall(r"^\s*(?:pub\s+)?(\w+)\s*:", m.group(1), re.M) if m else []
+    fa, fp, fc = fields("Args"), fields("Api"), fields("Config")
+    if not (fa and fp and fc == ["args", "file", "root"]):
+        o.inconc("config.rs: struct layout not understood (%s / %s / %s)" % (fa, fp, fc))
+        return
+    for setting in ("main", "target", "base"):
+        try:
+            f = MC.sel("config", setting, arg0=r"&config::Config")
+        except Exception as ex:
+            o.inconc("MIR: %s" % str(ex)[-200:])
+            continue
+        o.functions.append(mirlib.func_ref(f, "oal-client"))
+        ka, kf = fa.index(setting), fp.index(setting)
+        opt, cfg = ("fld", ("fld", ("deref", ("sym", "self")), 0), ka), ("fld", ("fld", ("fld", ("deref", ("sym", "self")), 1), 0), kf)
+        root = ("fld", ("deref", ("sym", "self")), 2)
+        ex = mirlib.executor([MC])
+        ex.emulate_option_map = True
+        n_ok = n_none = 0
+        good = True
+        for p in ex.run(f, arg_names=["self"]):
+            if p.kind != "return":
+                continue
+            reads = set(t for e in p.calls() for a in e[2] for t in ms.subterms(a) if t[0] == "fld" and t[1] == ("fld", ("deref", ("sym", "self")), 0))
+            reads |= set(t for e in p.calls() for a in e[2] for t in ms.subterms(a) if t[0] == "fld" and t[1] == ("fld", ("fld", ("deref", ("sym", "self")), 1), 0))
+            if reads - {opt, cfg}:
+                good = False
+            jn = [e for e in p.calls() if e[1] == "Locator::join"]
+            if jn:
+                src_terms = [t for t in ms.subterms(jn[0][2][1]) if t in (opt, cfg)]
+                if len(jn) != 1 or _strip_ref(jn[0][2][0]) != root or len(set(src_terms)) != 1:
+                    good = False
+                    continue
+                which = src_terms[0]
+                # the value joined is the payload of a setting that is present on this path
+                if not L.expect_unsat("Config::%s: the joined path is a value the user configured for `%s`" % (setting, setting), S.pc(p.pc) + [S.disc(S.v(which)) != 1], on_sat):
+                    good = False
+                if p.ret[0] == "variant" and p.ret[2] == "Ok":
+                    n_ok += 1
+                    inner = p.ret[3][0]
+                    want = ms.proj(ms.proj(jn[0][3], ("v", "Ok"), E), ("f", 0), E)
+                    if not (inner == want or inner == ("variant", "Option", "Some", (want,))):
+                        good = False
+            else:
+                n_none += 1
+                if not L.expect_unsat("Config::%s: nothing is answered only when neither the command line nor the config file names a %s" % (setting, setting),
+                                      S.pc(p.pc) + [z3.Or(S.disc(S.v(opt)) == 1, S.disc(S.v(cfg)) == 1)], on_sat):
+                    good = False
+        mirlib.check_translator(o, ex, "Config::" + setting)
+        structural("Config::%s: root.join of the configured `%s` (options field %d, config-file field %d), no other setting is read" % (setting, setting, ka, kf), good and n_ok >= 1 and n_none >= 1)
+    # the derive output: an option has a value only if the user wrote it
+    text = open(MC.path).read()
+    found = {}
+    for m in re.finditer(r"^fn ([^\n]*?::augment_args(?:_for_update)?)\(.*?^\}", text, re.M | re.S):
+        if "config.rs" in m.group(1):
+            found[m.group(1)] = set(re.findall(r"Arg::(\w+)", m.group(0)))
+    if not found:
+        o.inconc("clap derive output for config::Args not found in the MIR of oal-client")
+    else:
+        giving = sorted(x for v in found.values() for x in v if x.startswith(("default_", "env")))
+        structural("config::Args: no option is given a value the user did not write (no default_value / default_missing_value / env in the derived parser)", not giving)
+        o.extra["clap_builder_calls"] = sorted(set(x for v in found.values() for x in v))
+
+
+def _strip_ref(t):
+    while t[0] == "addr":
+        t = t[1]
+    return t
 
 
 def file_content_lemma(o, L, ML, bad, on_sat):
@@ -492,6 +579,48 @@ def real_cli_matrix():
                 mism.append("%s: the CLI %s but the language server published %d diagnostics" % (name, "succeeds" if cli_ok else "fails", ndiag))
     except Exception as ex:
         mism.append("playground / language-server comparison could not run: %s" % str(ex)[:120])
+    # the other configuration route: everything in a config file (-c), nothing on the command line; and a mix of both.
+    # The target named by the configuration is the file that is written - and the only one
+    from vcommon import run as vrun0
+    base_yaml = "openapi: 3.0.3\ninfo:\n  title: based\n  version: '1'\npaths: {}\n"
+    for name, src, extra, want, toml, argv, target in (
+            ("config-file", CASES["two-modules-ok"][0], CASES["two-modules-ok"][1], 0, '[api]\nmain = "main.oal"\ntarget = "spec/api.yaml"\n', ["-c", "oal.toml"], "spec/api.yaml"),
+            ("config-file-with-base", CASES["success"][0], {"base.yaml": base_yaml}, 0, '[api]\nmain = "main.oal"\ntarget = "described.yaml"\nbase = "base.yaml"\n', ["-c", "oal.toml"], "described.yaml"),
+            ("config-file-target-from-option", CASES["success"][0], {}, 0, '[api]\nmain = "main.oal"\ntarget = "from-file.yaml"\n', ["-c", "oal.toml", "-t", "from-option.yaml"], "from-option.yaml"),
+            ("config-file-failing", CASES["type"][0], {}, 1, '[api]\nmain = "main.oal"\ntarget = "spec/api.yaml"\n', ["-c", "oal.toml"], "spec/api.yaml")):
+        d = os.path.join(rdir, name)
+        files = {"main.oal": src, "oal.toml": toml}
+        files.update(extra)
+        for fn, text in files.items():
+            os.makedirs(os.path.dirname(os.path.join(d, fn)), exist_ok=True)
+            with open(os.path.join(d, fn), "w") as f:
+                f.write(text)
+        os.makedirs(os.path.dirname(os.path.join(d, target)), exist_ok=True)
+        with open(os.path.join(d, target), "w") as f:
+            f.write(SENTINEL)
+        before = set(os.path.join(r, x)[len(d) + 1:] for r, _, xs in os.walk(d) for x in xs)
+        rc, out, t = vrun0([cli] + argv, cwd=d, timeout=20, extra_env={"RUST_BACKTRACE": "0"})
+        after = set(os.path.join(r, x)[len(d) + 1:] for r, _, xs in os.walk(d) for x in xs)
+        if name == "config-file-target-from-option" and "from-file.yaml" in after - before and open(os.path.join(d, target)).read() == SENTINEL:
+            # both routes name a target: which one wins is not part of the statement - exactly one of them is written
+            target = "from-file.yaml"
+            after.discard("from-file.yaml")
+        tgt = open(os.path.join(d, target), encoding="utf-8", errors="replace").read()
+        detail[name] = {"rc": rc, "target_written": tgt != SENTINEL, "new_files": sorted(after - before)}
+        if after - before:
+            mism.append("%s: files nobody configured appear next to the sources: %s" % (name, sorted(after - before)))
+        if want == 0:
+            ref = run_cli(cli, {k: v for k, v in files.items() if k != "oal.toml"}, workdir=os.path.join(rdir, name + ".options"),
+                          base="base.yaml" if "base.yaml" in files else None)
+            if rc != 0 or tgt == SENTINEL:
+                mism.append("%s: exit %s and the configured target %s was %s" % (name, rc, target, "not written" if tgt == SENTINEL else "written"))
+            elif ref["rc"] != 0 or ref["target"] != tgt:
+                mism.append("%s: the document differs from the one the same compile gives when configured by options" % name)
+        else:
+            if rc == 0:
+                mism.append("%s: exit 0 on an erroneous program" % name)
+            if tgt != SENTINEL:
+                mism.append("%s: target modified on failure" % name)
     # unwritable target: the write fails -> exit must be failure
     d = os.path.join(rdir, "unwritable")
     os.makedirs(d, exist_ok=True)
